@@ -85,6 +85,21 @@ for _h in ("less", "prefix", "equal"):
       functions=["PartialOrd::partial_cmp", "PartialEq::eq"], desc="six comparisons on two texts equal byte-lexicographic order")
 
 # ---------------------------------------------------------------------------------------------
+# C13 arrays and strings
+# ---------------------------------------------------------------------------------------------
+V("O13.1", ["C13", "C05"], "c13_arrays", expect_verified=4, functions=["index_set_array", "index_get_array"],
+  desc="unbounded length: norm(i) = i<0 ? i+len : i; in range -> Ok and array == old.update(norm, value) (all other elements unchanged) / element returned; else IndexError and array unchanged")
+K("O13.cast", ["C13"], "vm", "c13_cast_contracts", functions=["index_set_array", "index_get_array"],
+  desc="the `as usize` / `as isize` casts replaced by helpers in unit c13_arrays (R3) have the helper contract, for all values")
+K("O13.3a", ["C13", "C05"], "vm", "c13_index_get_dispatch", needs_fmt_stub=True, functions=["index_get"],
+  desc="ALL words: non-Int index -> TypeError; non-sequence target -> TypeError; arrays/strings dispatched to their callee (callees replaced by contracts)")
+K("O13.3b", ["C13", "C05"], "vm", "c13_index_set_dispatch", needs_fmt_stub=True, functions=["index_set"],
+  desc="ALL words: same discipline for element assignment; the assigned value is the result")
+K("O13.3c", ["C13"], "vm", "c13_array_alias", level="bounded", bound="array of length 2 nested in an array of length 1; all indices, all immediate values", needs_fmt_stub=True,
+  functions=["index_get", "index_set", "index_get_array", "index_set_array", "Object::as_vec_mut"],
+  desc="sharing by reference: a write through one copy (or through the copy nested in another array) is read through every alias; out-of-range leaves the array unchanged")
+
+# ---------------------------------------------------------------------------------------------
 # per-property information for the evidence files
 # ---------------------------------------------------------------------------------------------
 NOT_APPLICABLE = {
@@ -93,6 +108,14 @@ NOT_APPLICABLE = {
 }
 
 PROPERTIES = {
+    "C13": {
+        "level": "proof",
+        "claim": "Array element read/write is proved for arrays of EVERY length and every index (Verus on the verbatim bodies of index_get_array/index_set_array: whole-view postcondition, negative indices from the back, IndexError leaves the array unchanged); the index/target type discipline of index_get/index_set is proved for ALL words (Kani, modular); aliasing only by a bounded stand-in; the character-based string operations are NOT decided (out of reach of both back ends).",
+        "note": "Trusted: Verus/Z3, Kani/CBMC, R3 cast helpers (their contract is itself proved by O13.cast). Bounded: aliasing (length-2 array nested once). Not decided: string indexing/length/assignment.",
+        "design_ref": "DESIGN.md 3.3",
+        "undecided": ["index_get_string / index_set_string / call_length on strings (str iterator adapters do not finish in CBMC even on concrete 2-character texts; no Verus model)", "aliasing through the VM's stack/globals (composition with C12/C02)"],
+        "assumptions": ["a Vec holds at most isize::MAX elements (std guarantee) - precondition of the array units"],
+    },
     "C06": {
         "level": "proof",
         "claim": "For ALL operand pairs: + - and the six comparisons on 61-bit ints are exact or an error (Kani, full domain); * / % are exact over mathematical integers (Verus on the macro-expanded real body) and panic-free (Kani); float + - * / and comparisons are bit-identical to IEEE (Kani, all bit patterns); every cross-type / unsupported combination is a TypeError, never a panic.",
